@@ -13,7 +13,9 @@
      put_on_hijack  handle Puts its array back although the connection lives on after handle
                     returned (listener.handle before f83061f; read from gen/Shape.v)
      put_early      the array is Put back before the handler ran (a breaking edit of Server.handle)
-     fork_alias     a tee branch Connection shares the parent's backing array (branchc := *cx)  *)
+     fork_alias     a tee branch Connection shares the parent's backing array (branchc := *cx)
+     adopt_tmp      prefetch makes the temporary pooled chunk the buffer of a Connection that has
+                    nothing buffered, although the chunk goes back to the pool (a breaking edit)  *)
 From Coq Require Import List Arith Bool ZArith.
 From Coq.Strings Require Import Byte.
 From L4.gen Require Import Consts Shape.
@@ -27,19 +29,26 @@ Definition cid := nat.   (* Connection value holding a view *)
 Definition chunk : nat := Z.to_nat layer4_prefetchChunkSize.
 Definition maxb : nat := Z.to_nat layer4_MaxMatchingBytes.
 
-Record disc := mkDisc { put_on_hijack : bool; put_early : bool; fork_alias : bool }.
+Record disc := mkDisc { put_on_hijack : bool; put_early : bool; fork_alias : bool; adopt_tmp : bool }.
 
 Definition good_disc (d : disc) : Prop :=
-  put_on_hijack d = false /\ put_early d = false /\ fork_alias d = false.
+  put_on_hijack d = false /\ put_early d = false /\ fork_alias d = false /\ adopt_tmp d = false.
 
 (* the life cycles of today's source, as far as l4gen recognises them *)
-Definition server_disc : disc := mkDisc false (negb layer4_server_handle_put_deferred) false.
-Definition listener_disc : disc := mkDisc layer4_listener_handle_put_unconditional false false.
-Definition tee_disc : disc := mkDisc false (negb layer4_server_handle_put_deferred) l4tee_branch_aliases_buf.
+Definition prefetch_adopts : bool := negb layer4_prefetch_buf_only_grows_itself.
+Definition server_put_early : bool :=
+  negb (layer4_server_handle_put_deferred && layer4_server_handle_put_once_deferred).
+Definition listener_put_on_hijack : bool :=
+  layer4_listener_handle_put_unconditional || negb layer4_listener_handle_put_iff_not_hijacked.
+Definition server_disc : disc := mkDisc false server_put_early false prefetch_adopts.
+Definition listener_disc : disc := mkDisc listener_put_on_hijack false false prefetch_adopts.
+Definition tee_disc : disc := mkDisc false server_put_early l4tee_branch_aliases_buf prefetch_adopts.
 (* reference points *)
-Definition unconditional_put_disc : disc := mkDisc true false false.
-Definition alias_fork_disc : disc := mkDisc false false true.
-Definition early_put_disc : disc := mkDisc false true false.
+Definition clean_disc : disc := mkDisc false false false false.
+Definition unconditional_put_disc : disc := mkDisc true false false false.
+Definition alias_fork_disc : disc := mkDisc false false true false.
+Definition early_put_disc : disc := mkDisc false true false false.
+Definition adopt_tmp_disc : disc := mkDisc false false false true.
 
 Inductive phase := PHandling | PHanded | PDone.
 
@@ -142,7 +151,11 @@ Definition step (d : disc) (s : pstate) (e : pevent) : pstate :=
               (* tmp := bufPool.Get()[:chunk]; n = Read(tmp); cx.buf = append(cx.buf, tmp[:n]...); Put(tmp) *)
               let '(t, fr, nx) := pool_get k (free s) (next s) in
               let h1 := updh (heap s) t (write_at 0 dat (heap s t)) in
-              if Nat.leb (vlen st + n) (vcap st) then
+              if adopt_tmp d && Nat.eqb (vlen st) 0 then
+                (* cx.buf = tmp[:n] while the deferred Put still returns tmp *)
+                mkP h1 (t :: fr) nx
+                    (updc (cs s) c (set_view st t n chunk (voff st) (own st ++ dat)))
+              else if Nat.leb (vlen st + n) (vcap st) then
                 mkP (updh h1 (vid st) (write_at (vlen st) (firstn n (h1 t)) (h1 (vid st)))) (t :: fr) nx
                     (updc (cs s) c (set_view st (vid st) (vlen st + n) (vcap st) (voff st) (own st ++ dat)))
               else
